@@ -260,7 +260,9 @@ func c17Sha(s string) string {
 // response variants of the recording upstreams, selected by the request header X-Want
 var c17Wants = []string{"plain", "created", "nocontent", "redirect-ext", "notfound", "error", "unavailable", "cookies", "unauthorized", "forbidden", "big:262144", "big:1048576",
 	// an interim response first (103 Early Hints with a Link header), then the final answer of the named variant
-	"hints+created", "hints+notfound"}
+	"hints+created", "hints+notfound",
+	// the upstream announces 64 bytes, sends 20 and drops the connection
+	"abort-mid-body"}
 
 func c17RespSpec(want, upName string) (status int, hdr [][2]string, body string) {
 	want = strings.TrimPrefix(want, "hints+")
@@ -304,7 +306,41 @@ func c17Upstream(name string) *world.Upstream {
 		return u
 	}
 	u := world.NewUpstream(name)
-	u.Respond = func(w http.ResponseWriter, r *http.Request) {
+	u.Respond = c17Respond(name)
+	c17Pool[name] = u
+	return u
+}
+
+// c17UpstreamUnix: the same recording upstream behind a unix socket of its own.
+func c17UpstreamUnix(name string) *world.Upstream {
+	if u := c17Pool["unix:"+name]; u != nil {
+		return u
+	}
+	u := world.NewUpstreamUnix(name, filepath.Join(scratch(), "c17-"+name+".sock"))
+	u.Respond = c17Respond(name)
+	c17Pool["unix:"+name] = u
+	return u
+}
+
+// c17Respond is the answer function of the recording upstreams (variant chosen by the request header X-Want).
+func c17Respond(name string) func(w http.ResponseWriter, r *http.Request) {
+	return func(w http.ResponseWriter, r *http.Request) {
+		if r.Header.Get("X-Want") == "abort-mid-body" {
+			w.Header().Set("X-Upstream", name)
+			w.Header().Set("Content-Type", "text/plain")
+			w.Header().Set("Content-Length", "64")
+			w.WriteHeader(200)
+			io.WriteString(w, c17AbortPrefix)
+			if f, ok := w.(http.Flusher); ok {
+				f.Flush()
+			}
+			if hj, ok := w.(http.Hijacker); ok {
+				if conn, _, err := hj.Hijack(); err == nil {
+					conn.Close()
+				}
+			}
+			return
+		}
 		st, hdr, body := c17RespSpec(r.Header.Get("X-Want"), name)
 		if strings.HasPrefix(r.Header.Get("X-Want"), "hints+") {
 			w.Header().Set("Link", "</style.css>; rel=preload; as=style")
@@ -319,28 +355,6 @@ func c17Upstream(name string) *world.Upstream {
 			io.WriteString(w, body)
 		}
 	}
-	c17Pool[name] = u
-	return u
-}
-
-// c17UpstreamUnix: the same recording upstream behind a unix socket of its own.
-func c17UpstreamUnix(name string) *world.Upstream {
-	if u := c17Pool["unix:"+name]; u != nil {
-		return u
-	}
-	u := world.NewUpstreamUnix(name, filepath.Join(scratch(), "c17-"+name+".sock"))
-	u.Respond = func(w http.ResponseWriter, r *http.Request) {
-		st, hdr, body := c17RespSpec(r.Header.Get("X-Want"), name)
-		for _, x := range hdr {
-			w.Header().Add(x[0], x[1])
-		}
-		w.WriteHeader(st)
-		if st != 204 {
-			io.WriteString(w, body)
-		}
-	}
-	c17Pool["unix:"+name] = u
-	return u
 }
 
 func c17ClosePool() {
@@ -966,7 +980,29 @@ func (e *c17Env) judgeReqHeaders(sent [][2]string, got http.Header) (key, msg st
 // response reached the client (relaying it is optional; the final status is what the statement is about).
 var c17Interim [2]int64
 
+// c17Aborts counts upstream answers broken off mid-body, and those the proxy aborted towards the client.
+var c17Aborts [2]int64
+
+const c17AbortPrefix = "twenty-bytes-of-body."
+
 func (e *c17Env) judgeResponse(want, upName string, resp *world.Resp) (key, msg string) {
+	if want == "abort-mid-body" {
+		// the upstream's answer cannot be relayed completely; whatever the client is given must not contain
+		// bytes the upstream never sent, and must not be presented as a complete answer with other content
+		c17Aborts[0]++
+		switch {
+		case resp.Aborted:
+			c17Aborts[1]++
+			if !strings.HasPrefix(c17AbortPrefix, resp.Body) {
+				return "C17/response-body", fmt.Sprintf("upstream broke off after %q; the client had received %q when the proxy aborted", c17AbortPrefix, c17Short(resp.Body))
+			}
+		case resp.Status >= 500:
+			// an error answer of the proxy's own (it had not started relaying): admissible
+		case !strings.HasPrefix(c17AbortPrefix, resp.Body):
+			return "C17/response-body", fmt.Sprintf("upstream sent %q of an announced 64 bytes and dropped the connection; the client received a completed response, status %d, body %q — bytes the upstream never sent", c17AbortPrefix, resp.Status, c17Short(resp.Body))
+		}
+		return "", ""
+	}
 	st, hdr, body := c17RespSpec(want, upName)
 	if strings.HasPrefix(want, "hints+") {
 		c17Interim[0]++
@@ -1113,6 +1149,8 @@ func c17Run(c *Ctx) {
 	defer func() {
 		c.Add("responses_preceded_by_interim_response", c17Interim[0])
 		c.Add("interim_responses_relayed_to_client", c17Interim[1])
+		c.Add("upstream_answers_broken_off_mid_body", c17Aborts[0])
+		c.Add("broken_off_answers_aborted_towards_the_client", c17Aborts[1])
 	}()
 	sets := c17Sets()
 	depthAll, depthMethods, perUp := 2, 1, 1
